@@ -298,6 +298,7 @@ func (c *config) WriteFrontendMaps() error {
 			crtFile = c.frontend.DefaultCrtFile
 		}
 		if crtFile != c.frontend.DefaultCrtFile ||
+			c.wildcardHasCustomCrt(host.Hostname) ||
 			tls.ALPN != "" ||
 			tls.CAFilename != "" ||
 			tls.Ciphers != "" ||
@@ -345,6 +346,21 @@ func (c *config) WriteFrontendMaps() error {
 	}
 	c.frontend.Maps = fmaps
 	return nil
+}
+
+// wildcardHasCustomCrt returns true if hostname is covered by a wildcard
+// host that has its own certificate. Such a hostname needs its own crt-list
+// line, otherwise HAProxy answers its SNI with the certificate of the
+// wildcard host instead of the one assigned to (or defaulted for) the host.
+func (c *config) wildcardHasCustomCrt(hostname string) bool {
+	pos := strings.Index(hostname, ".")
+	if pos <= 0 || strings.HasPrefix(hostname, "*") {
+		return false
+	}
+	wildcard := c.hosts.FindHost("*" + hostname[pos:])
+	return wildcard != nil &&
+		wildcard.TLS.TLSFilename != "" &&
+		wildcard.TLS.TLSFilename != c.frontend.DefaultCrtFile
 }
 
 // rootRedirectBackendChanged returns true if a changed backend serves a path
